@@ -4,3 +4,5 @@ import Props.C09
 #print axioms C09.stable_iterate
 #print axioms C09.cycle_cut_returns_member
 #print axioms C09.fix_history_asymmetry
+#print axioms C09.orientation_antisymmetric
+#print axioms C09.orientation_hypotheses_needed
